@@ -488,6 +488,29 @@ func GenTypes(t *rapid.T, o *Opts) *Spec {
 			o.class("feature:union_holder_reached_through_container")
 		}
 	}
+	if o.Unions == 2 && o.ContainerMembers && o.FixedArrays && rapid.IntRange(0, 2).Draw(t, "namedArrayOfUnion") == 0 && !o.gated("named_array_of_union") {
+		// a named fixed array of unions held by value in a struct that has a union field of its own
+		// (its shadow struct is marshalled by value: the array is not addressable there)
+		var us []*tinfo
+		for _, ti := range g.types {
+			if ti.cat == "union" && ti.pkg == root && len(g.spec.Unions()[root.Path][ti.d.Name].Members) > 0 {
+				us = append(us, ti)
+			}
+		}
+		if len(us) > 0 {
+			u := us[rapid.IntRange(0, len(us)-1).Draw(t, "naouUnion")]
+			ad := &Decl{Kind: KNamed, Name: g.freshName(root, "naouName", true), Type: Array(rapid.IntRange(1, 3).Draw(t, "naouLen"), g.refTo(root, u))}
+			ai := g.newDecl(root, root.Files[rapid.IntRange(0, 1).Draw(t, "naouFile")], ad, &tinfo{cat: "array", hasUnion: true, elemUnion: true})
+			h := &Decl{Kind: KStruct, Name: g.freshName(root, "naouHolder", true), Fields: []*Field{
+				{Name: "Items", Type: g.refTo(root, ai)}, {Name: "Main", Type: g.refTo(root, u)},
+				{Name: "ByName", Type: Map(Basic("string"), g.refTo(root, ai))}}}
+			if rapid.Bool().Draw(t, "naouNoMap") {
+				h.Fields = h.Fields[:2]
+			}
+			g.newDecl(root, root.Files[0], h, &tinfo{cat: "struct", hasUnion: true})
+			o.class("feature:named_array_of_unions_held_by_value")
+		}
+	}
 	if o.RecursiveUnions && rapid.IntRange(0, 2).Draw(t, "recursiveUnion") == 0 {
 		// a recursive union: a struct member holds a value of the union it belongs to (type Add struct{ Left, Right Expr })
 		type pair struct {
